@@ -82,6 +82,10 @@ def targets():
         'dataclass-struct': _dc([FieldM('alpha', Ty('any'), 'val', 0), FieldM('count', Ty('any'), 'val', 0)], allow_extra=True),
         'dataclass-tuple': _dc([FieldM('alpha', Ty('any'), 'val', 0), FieldM('count', Ty('any'), 'val', 0)], in_format=('tuple',)),
         'int-subclass': Ty('sub', base='int'), 'str-subclass': Ty('sub', base='str'),
+        # single-kind enums: a value of another kind that merely compares equal to a member value (1.0 == 1 == True) is not a member
+        'enum-int': Ty('enum', members=(('A', 1), ('B', 5), ('Z', 0))), 'enum-str': Ty('enum', members=(('A', 'ab'), ('B', '12'), ('E', ''))),
+        'enum-float': Ty('enum', members=(('A', 2.5), ('B', 5.0))), 'enum-bool': Ty('enum', members=(('T', True), ('F', False))),
+        'enum-intenum': Ty('enum', members=(('A', 1), ('B', 5)), flavour='IntEnum'), 'enum-strmix': Ty('enum', members=(('A', 'ab'), ('B', '12')), flavour='strmix'),
     }
 
 
@@ -116,6 +120,10 @@ def cell(vk, tk):
         return 'content' if vk in ('int', 'float') + STR_KINDS else 'reject'
     if tk in ('date', 'time', 'datetime', 'pattern-str'): return 'content' if vk in STR_KINDS else 'reject'
     if tk == 'pattern-bytes': return 'content' if vk in ('bytes', 'bytearray') else 'reject'
+    if tk in ('enum-int', 'enum-intenum'): return {'int': 'content', 'bool': 'unspec'}.get(vk, 'reject')
+    if tk in ('enum-str', 'enum-strmix'): return 'content' if vk in STR_KINDS else 'reject'
+    if tk == 'enum-float': return {'int': 'content', 'float': 'content', 'bool': 'unspec'}.get(vk, 'reject')
+    if tk == 'enum-bool': return 'content' if vk == 'bool' else 'reject'
     if tk in ('literal', 'enum'):
         return 'content' if vk in ('int', 'float', 'none', 'bool', 'bytes', 'bytearray') + STR_KINDS else 'reject'
     raise KeyError(tk)
@@ -141,6 +149,10 @@ def contexts():
         'annotated': (lambda T: Ty('cond', [T], conds=[ALWAYS]), lambda v: v),
         'dataclass-field-struct': (lambda T: _dc([FieldM('inner_val', T)]), lambda v: {'inner_val': v}),
         'dataclass-field-tuple': (lambda T: _dc([FieldM('inner_val', T)], in_format=('tuple',)), lambda v: [v]),
+        # a None default does not make the field's type optional
+        'dataclass-field-default-none': (lambda T: _dc([FieldM('inner_val', T, 'val', None)]), lambda v: {'inner_val': v}),
+        'dataclass-field-kwonly-default-none': (lambda T: _dc([FieldM('alpha', Ty('int')), FieldM('inner_val', T, 'val', None, kw_only=True)],
+                                                              in_format=('struct', 'tuple')), lambda v: {'alpha': 0, 'inner_val': v}),
         # a field that is not bound positionally (init=False) sits before the slot: positions must still line up
         'dataclass-field-tuple-after-uninitialised': (
             lambda T: _dc([FieldM('alpha', Ty('str')), FieldM('zz', Ty('any'), 'val', 0, init=False), FieldM('inner_val', T)], in_format=('tuple',)),
@@ -253,6 +265,6 @@ def post_merge(counters, sets, tier):
     want = len(VALUES) * len(targets())
     if len(sets.get('cells', ())) < want:
         reasons.append(f"only {len(sets.get('cells', ()))} of {want} matrix cells were visited")
-    if len([c for c in sets.get('contexts', ()) if '>' not in c]) < 12:
+    if len([c for c in sets.get('contexts', ()) if '>' not in c]) < 14:
         reasons.append("not every embedding context was visited")
     return reasons
